@@ -196,6 +196,62 @@ def make_posterior(flags, batches, bins, betas=None, ess_trim="9/10"):
                       theory="QF_NRA", timeout_ms=30000, max_paths=4000)
 
 
+def make_posterior_after_replacement(batches=(2, 1)):
+    """posterior(); replace the stored history by a different one of the same shape (load_state / resume path); posterior()
+    again: every returned row must come from the NEW history (no memoised weights or flattened arrays survive)."""
+    D = 1
+    betas = tuple([Fraction(0)] * len(batches))
+
+    def harness(ctx: PathCtx):
+        smp = make_sampler(blobs=True)
+        fill_history(ctx, smp.state, batches, betas, D, blobs=True, unit_Z=True)
+        stub = RandomStub(Draws(ctx), max_calls=2)
+        with patched(sm_mod, np=NpProxy(exact_log=True)), patched(core_mod, np=NpProxy(exact_log=True, random=stub)), patched(tools, np=NpProxy(random=stub)):
+            smp.posterior(trim_importance_weights=False, return_blobs=True, return_logw=True)
+            smp.state.get_history("logl", flat=True)
+            other = make_sampler(blobs=True)
+            rows2, pb2 = fill_history(ctx, other.state, batches, betas, D, blobs=True, tag="n", unit_Z=True)
+            smp.state.update_from_dict(other.state.to_dict())
+            x, w, logl, blobs, logw = smp.posterior(trim_importance_weights=False, return_blobs=True, return_logw=True)
+        spec = spec_weights(pb2, Fraction(1), D)
+        tot = spec[0]
+        for s_ in spec[1:]:
+            tot = tot + s_
+        n = len(rows2)
+        ok_len = len(x) == n and len(w) == n and len(logl) == n and len(blobs) == n and len(logw) == n
+        ctx.check("lengths", z3.BoolVal(bool(ok_len)))
+        if ok_len:
+            ctx.check("samples-logl-blobs-come-from-the-new-history", z3.And(*[z3.And(eq(scalar(x[i]), rows2[i]["x"]), eq(logl[i].exp(), rows2[i]["l"].exp()),
+                                                                                    eq(scalar(blobs[i]), rows2[i]["b"])) for i in range(n)]))
+            ctx.check("weights-come-from-the-new-history", z3.And(*[eq(w[i], spec[i] / tot) for i in range(n)]))
+            ctx.check("logw-comes-from-the-new-history", z3.And(*[eq(logw[i].exp(), spec[i] / tot) for i in range(n)]))
+        return None
+
+    def replay(m, label, v):
+        rng = np.random.RandomState(1)
+        smps = []
+        for off in (0.0, 3.0):
+            s_ = make_sampler(blobs=True)
+            for t, nt in enumerate(batches):
+                xs = rng.rand(nt, 1) + off
+                s_.state.update_current({"u": np.full((nt, 1), 0.5), "x": xs, "logl": -xs[:, 0] * (1 + off), "beta": 0.0, "logz": 0.0, "blobs": 7 * xs[:, 0]})
+                s_.state.commit_current_to_history()
+            smps.append(s_)
+        a, b = smps
+        a.posterior(trim_importance_weights=False, return_blobs=True, return_logw=True)
+        a.state.update_from_dict(b.state.to_dict())
+        ra = a.posterior(trim_importance_weights=False, return_blobs=True, return_logw=True)
+        rb = b.posterior(trim_importance_weights=False, return_blobs=True, return_logw=True)
+        bad = not all(np.allclose(p, q) for p, q in zip(ra, rb))
+        return {"reproduced": bool(bad), "signature": "posterior:stale-after-history-replacement", "payload": {"got_weights": np.asarray(ra[1]).tolist(), "expected": np.asarray(rb[1]).tolist()},
+                "what": "posterior() after the history was replaced (update_from_dict / load_state) mixes rows of the old and the new history"}
+
+    return Obligation(f"posterior-after-replacement-hist{'x'.join(map(str, batches))}", harness, replay=replay,
+                      encodes=[core_mod.SamplerCore.compute_posterior, StateManager.update_from_dict, StateManager.get_history],
+                      bounds=f"two symbolic histories of shape {batches}; posterior / replace / posterior on one sampler object",
+                      stubs=["np.log/np.logaddexp/np.exp -> exact log-domain algebra"], theory="QF_NRA")
+
+
 # ------------------------------------------------------------------ termination test
 
 
@@ -261,12 +317,21 @@ def make_evidence(batches, betas, D=1):
         stale = real(ctx, "stale_logz_exp", lo=0, lo_strict=True)
 
         def fresh():
-            smp.state._current.update({"iter": 5, "calls": 50, "beta": 1.0, "logz": LogVal.of_positive(stale)})
+            # a run may legally stop with 1 - beta < 1e-4: the reported evidence must still be the one at beta = 1
+            smp.state._current.update({"iter": 5, "calls": 50, "beta": 0.99995, "logz": LogVal.of_positive(stale)})
         core._initialize_fresh = fresh
         core._not_termination = lambda: False
+        asked = []
+        real_compute = smp.state.compute_logw_and_logz
+
+        def recording(beta_final=1.0, normalize=True):
+            asked.append(beta_final)
+            return real_compute(1.0 if beta_final != 1.0 else beta_final, normalize)
+        smp.state.compute_logw_and_logz = recording
         with patched(sm_mod, np=NpProxy(exact_log=True)):
             smp.run(n_total=1, progress=False)
             ev = smp.evidence()
+        ctx.check("final-evidence-is-evaluated-at-beta=1", z3.BoolVal(bool(asked) and all(float(b) == 1.0 for b in asked)), detail=[str(b) for b in asked])
         spec = spec_weights(pb, Fraction(1), D)
         s = spec[0]
         for v in spec[1:]:
@@ -280,20 +345,22 @@ def make_evidence(batches, betas, D=1):
         st = smp.state
         k = 0
         for t, nt in enumerate(batches):
-            ll = np.array([D * math.log(float(m[f"expatom_l{k + j}"])) for j in range(nt)])
+            # log-likelihoods of realistic magnitude (-2e4 + model values): a temperature error of 5e-5 then shows in the evidence
+            ll = np.array([D * math.log(float(m[f"expatom_l{k + j}"])) - 2e4 - 3.0 * (k + j) for j in range(nt)])
             st.update_current({"u": np.full((nt, 1), 0.5), "x": np.zeros((nt, 1)), "logl": ll, "beta": float(betas[t]),
-                               "logz": math.log(float(m[f"Z{t}"]))})
+                               "logz": math.log(float(m[f"Z{t}"])) - 2e4 * float(betas[t])})
             st.commit_current_to_history()
             k += nt
         core = smp._core
         stale = math.log(float(m["stale_logz_exp"]))
-        core._initialize_fresh = lambda: st._current.update({"iter": 5, "calls": 50, "beta": 1.0, "logz": stale})
+        core._initialize_fresh = lambda: st._current.update({"iter": 5, "calls": 50, "beta": 0.99995, "logz": stale})
         core._not_termination = lambda: False
         smp.run(n_total=1, progress=False)
         ev = smp.evidence()[0]
         _, ref = st.compute_logw_and_logz(1.0)
-        return {"reproduced": not math.isclose(ev, ref, rel_tol=1e-9, abs_tol=1e-12), "signature": "evidence-after-run",
-                "payload": {"evidence": ev, "recomputed": ref}, "what": f"evidence() = {ev} but MIS evidence at beta=1 from the history = {ref}"}
+        return {"reproduced": not math.isclose(ev, ref, rel_tol=1e-12, abs_tol=1e-9), "signature": "evidence-after-run",
+                "payload": {"evidence": ev, "recomputed": ref, "beta_at_termination": 0.99995},
+                "what": f"run() ending at beta=0.99995: evidence() = {ev} but MIS evidence at beta=1 from the history = {ref}"}
 
     return Obligation(f"evidence-hist{'x'.join(map(str, batches))}", harness, replay=replay,
                       encodes=[core_mod.SamplerCore.run_sampling, core_mod.SamplerCore.compute_evidence, Sampler.evidence],
@@ -314,6 +381,7 @@ def obligations(tier):
     obs.append(make_resume_target())  # ESS >= n_total of *this* call also when the run is resumed
     obs.append(make_termination((2, 1), (Fraction(0), Fraction(1))))
     obs.append(make_evidence((2, 1), (Fraction(0), Fraction(1))))
+    obs.append(make_posterior_after_replacement((2, 1)))
     if tier == "thorough":
         for flags in combos:
             obs.append(make_posterior(flags, (2, 2), 4, ess_trim="3/4"))
